@@ -459,7 +459,8 @@ class NPProxy:
                 if x:
                     return True
             return False
-        return np.any(a, *args, **kw)
+        r = np.any(a, *args, **kw)
+        return bool(r) if isinstance(r, np.ndarray) and r.ndim == 0 else r
 
     def all(self, a, *args, **kw):
         if isinstance(a, np.ndarray) and a.dtype == object and not args and not kw:
@@ -467,7 +468,8 @@ class NPProxy:
                 if not x:
                     return False
             return True
-        return np.all(a, *args, **kw)
+        r = np.all(a, *args, **kw)
+        return bool(r) if isinstance(r, np.ndarray) and r.ndim == 0 else r
 
     def where(self, cond, *xy):
         if isinstance(cond, np.ndarray) and cond.dtype == object:
